@@ -46,13 +46,24 @@ def compare_case(case, real, resp):
     return None
 
 
+# per-driver rewriting of request lines: an operation that is DIFFERENT for the implementation but the same for the model /
+# specification (e.g. "assign through a uint8 offset tensor" vs "assign through an int64 one") is sent to the driver in its
+# canonical form.  DRIVER_MAP[driver] = function(line) -> line
+DRIVER_MAP: dict = {}
+
+
+def to_driver(driver: str, lines: list[str]) -> list[str]:
+    f = DRIVER_MAP.get(driver)
+    return [f(l) for l in lines] if f else lines
+
+
 def run_cases(ctx, driver: str, cases: list[list[str]], make_exec: Callable, ex: Exploration,
               key_of: Callable, prop: str, nontrivial: Callable | None = None,
               max_findings: int = 8, shrink: bool = True) -> None:
     """Executes all cases on both sides (one driver process), records findings into `ex`."""
     flat = [l for c in cases for l in c]
     reals = [exec_real(make_exec, c) for c in cases]
-    resp = ctx.run_driver(driver, flat)
+    resp = ctx.run_driver(driver, to_driver(driver, flat))
     pos = 0
     nfound = 0
     for case, real in zip(cases, reals):
@@ -72,7 +83,7 @@ def run_cases(ctx, driver: str, cases: list[list[str]], make_exec: Callable, ex:
             continue
         small = shrink_case(ctx, driver, case[: d[0] + 1], make_exec, d[1]) if shrink else case[: d[0] + 1]
         real2 = exec_real(make_exec, small)
-        resp2 = ctx.run_driver(driver, small)
+        resp2 = ctx.run_driver(driver, to_driver(driver, small))
         d2 = compare_case(small, real2, resp2) or d
         ex.findings.append(Finding(
             kind=d2[1], key=key_of(small, d2), what=f"op `{small[d2[0]]}`: expected `{d2[2]}` observed `{d2[3]}`",
@@ -87,7 +98,7 @@ def shrink_case(ctx, driver, case, make_exec, kind, max_tries: int = 60):
 
     def fails(c):
         real = exec_real(make_exec, c)
-        resp = ctx.run_driver(driver, c)
+        resp = ctx.run_driver(driver, to_driver(driver, c))
         d = compare_case(c, real, resp)
         if d is None or d[1] != kind:
             return False
